@@ -46,15 +46,15 @@ func init() {
 }
 
 type c40In struct {
-	Kind  string // addtag, removetag, merge, read, list, delete
-	World int    // index into world ids; 0 = default (invalid root id)
-	Feat  int
-	Key   string
-	Val   string
-	Parts []c40In // merge; addworld: the one change applied to the new world
-	Target int    // addworld: index of the world that is replaced
-	Fail  bool    // merge part / change that must fail (missing feature)
-	Final bool    // issued by the main task after every client finished
+	Kind   string // addtag, removetag, merge, read, list, delete
+	World  int    // index into world ids; 0 = default (invalid root id)
+	Feat   int
+	Key    string
+	Val    string
+	Parts  []c40In // merge; addworld: the one change applied to the new world
+	Target int     // addworld: index of the world that is replaced
+	Fail   bool    // merge part / change that must fail (missing feature)
+	Final  bool    // issued by the main task after every client finished
 }
 
 func (in c40In) String() string {
